@@ -61,6 +61,9 @@ def world(caching):
     e2 = UnDirectedEdge(a, c)
     laws = UniverseLaws(edge_whitelist={Vertex: {Vertex: DirectedEdge}})
     u.laws = laws
+    # every BaseObject can be filed under universes — law sets and links too
+    laws.add_to_universe(u)
+    e1.add_to_universe(u)
     return u, (a, b, c), (e1, e2), laws
 
 
@@ -80,6 +83,8 @@ def observe(u, vs, es, laws, nm=None):
         out.append(tuple(id(x) for x in depthfirst.dft_iterative(u, v)))
     for e in es:
         out.append(tuple(id(x) for x in e.vertices))
+        out.append(tuple(id(x) for x in e.universes))
+    out.append(tuple(id(x) for x in laws.universes))
     out.append(tuple(id(x) for x in u.vertices))
     wl = laws.edge_whitelist
     out.append(tuple((id(k), tuple((id(k2), id(v2)) for k2, v2 in inner.items())) for k, inner in wl.items()))
@@ -149,6 +154,8 @@ OUT = [
     ("Link.vertices", lambda u, vs, es, L: es[0].vertices),
     ("Universe.vertices", lambda u, vs, es, L: u.vertices),
     ("BaseObject.universes", lambda u, vs, es, L: vs[0].universes),
+    ("UniverseLaws.universes", lambda u, vs, es, L: L.universes),
+    ("Link.universes", lambda u, vs, es, L: es[0].universes),
     ("UniverseLaws.edge_whitelist", lambda u, vs, es, L: L.edge_whitelist),
     ("neighbors (non-empty answer)", lambda u, vs, es, L: helpers.neighbors(vs[0], helpers.DIR_SENS_FORWARD, helpers.LNK_UNKNOWN_NEIGHBOR)),
     ("neighbors (empty answer)", lambda u, vs, es, L: helpers.neighbors(vs[1], helpers.DIR_SENS_FORWARD, helpers.LNK_UNKNOWN_NEIGHBOR)),
